@@ -704,3 +704,41 @@ T('g9_t_dispatch_tail_inverted', ['C09'],
   (A, _DISPATCH_ERR_TAIL, "        if not isinstance(ret, HTTPException):\n            pass\n        else:\n            error_params = dict(params, _error=ret)\n" + _DISPATCH_ERR + "        return ret\n"))
 T('g9_t_dispatch_tail_tuple_of_classes', ['C09'],
   (A, "        if isinstance(ret, HTTPException):\n            error_params", "        if isinstance(ret, (HTTPException,)):\n            error_params"))
+
+
+# ------------------------------------------------------------------ round x: the format table / the markup in a new private module
+_FMT = 'clastic/_fmt_tables.py'
+_FMT2 = 'clastic/_fmt_tables2.py'
+_TABLE_SRC = ("MIME_SUPPORT_MAP = {'text/html': 'html',\n                    'application/json': 'json',\n"
+              "                    'text/plain': 'text',\n                    'application/xml': 'xml'}\nDEFAULT_MIME = 'text/plain'\n")
+_ERR_IMPORT_ANCHOR = "from ._contextual_errors import CONTEXTUAL_ENV\n"
+_APP_TABLE_IMPORT = "from .errors import (HTTPException,\n                     MIME_SUPPORT_MAP,\n"
+_APP_TABLE_MOVED = "from ._fmt_tables import MIME_SUPPORT_MAP\nfrom .errors import (HTTPException,\n"
+_TABLE_MOVED = ((_FMT, '__NEW__', _TABLE_SRC), (E, _TABLE_SRC, ''),
+                (E, _ERR_IMPORT_ANCHOR, _ERR_IMPORT_ANCHOR + "from ._fmt_tables import MIME_SUPPORT_MAP, DEFAULT_MIME\n"))
+T('x9_t_table_in_new_module_imported_back', ['C09'], *_TABLE_MOVED)
+T('x9_t_table_in_new_module_application_imports_it_there', ['C09'], *(_TABLE_MOVED + ((A, _APP_TABLE_IMPORT, _APP_TABLE_MOVED),)))
+B('x9_b_table_in_new_module_application_has_another', ['C09'], 'R09.b',
+  *(_TABLE_MOVED + ((_FMT2, '__NEW__', _TABLE_SRC.replace("                    'application/xml': 'xml'}", "                    'application/xml': 'text'}")),
+                    (A, _APP_TABLE_IMPORT, _APP_TABLE_MOVED.replace('_fmt_tables', '_fmt_tables2')))))
+B('x9_b_table_in_new_module_modified_there', ['C09'], 'R09.b',
+  (_FMT, '__NEW__', _TABLE_SRC + "\n\ndef support(mime, fmt):\n    MIME_SUPPORT_MAP[mime] = fmt\n"), *_TABLE_MOVED[1:])
+_TO_XML = ("        params = self.to_escaped_dict()\n        ret = ('<http_error>'\n               '<code>{code}</code>'\n"
+           "               '<message>{message}</message>'\n               '<detail>{detail}</detail>'\n"
+           "               '<error_type>{error_type}</error_type>'\n               '</http_error>').format(**params)\n        return ret\n")
+_XML_MOD = ("XML_SKELETON = ('<http_error>'\n                '<code>{code}</code>'\n                '<message>{message}</message>'\n"
+            "                '<detail>{detail}</detail>'\n                '<error_type>{error_type}</error_type>'\n                '</http_error>')\n"
+            "\n\ndef fill_xml(fields):\n    return XML_SKELETON.format(**fields)\n")
+_XML_IMPORTED = (E, _ERR_IMPORT_ANCHOR, _ERR_IMPORT_ANCHOR + "from ._fmt_tables import fill_xml\n")
+T('x9_t_to_xml_hands_escaped_mapping_to_function_of_new_module', ['C09'],
+  (_FMT, '__NEW__', _XML_MOD), _XML_IMPORTED, (E, _TO_XML, "        return fill_xml(self.to_escaped_dict())\n"))
+T('x9_t_to_xml_names_mapping_then_hands_it_on', ['C09'],
+  (_FMT, '__NEW__', _XML_MOD), _XML_IMPORTED, (E, _TO_XML, "        fields = self.to_escaped_dict()\n        return fill_xml(fields)\n"))
+B('x9_b_to_xml_function_of_new_module_unescapes_a_field', ['C09'], 'R09.c',
+  (_FMT, '__NEW__', _XML_MOD.replace("format(**fields)", "format(**dict(fields, detail=fields['detail'].replace('&lt;', '<')))")),
+  _XML_IMPORTED, (E, _TO_XML, "        return fill_xml(self.to_escaped_dict())\n"))
+B('x9_b_to_xml_function_of_new_module_unquoted_attribute', ['C09'], 'R09.c',
+  (_FMT, '__NEW__', _XML_MOD.replace("'<error_type>{error_type}</error_type>'", "'<error_type ref={error_type}></error_type>'")),
+  _XML_IMPORTED, (E, _TO_XML, "        return fill_xml(self.to_escaped_dict())\n"))
+B('x9_b_to_xml_hands_raw_dict_to_function_of_new_module', ['C09'], 'R09.c',
+  (_FMT, '__NEW__', _XML_MOD), _XML_IMPORTED, (E, _TO_XML, "        return fill_xml(self.to_dict())\n"))
